@@ -8,6 +8,7 @@ import (
 	"sort"
 	"strings"
 	"sync"
+	"sync/atomic"
 	"time"
 
 	"github.com/lrstanley/girc"
@@ -37,6 +38,19 @@ type lifeObs struct {
 	ChansAtStart   int // tracked channels after this connection's 001 + barrier (-1 if not reached)
 	UsersAtStart   int
 	QuitWritten    bool
+	SockClosed     bool // the client called Close() on its socket
+}
+
+// closeRecorder records whether the client closed its own end (when the PEER closes first, the peer's EOF says
+// nothing about that).
+type closeRecorder struct {
+	net.Conn
+	closed int32
+}
+
+func (c *closeRecorder) Close() error {
+	atomic.AddInt32(&c.closed, 1)
+	return c.Conn.Close()
 }
 
 type lifeClient struct {
@@ -136,12 +150,21 @@ func (lc *lifeClient) runLifeConn(idx int, term, place, peer string, r *RNG) *li
 	o.GBefore = settleGoroutines(0)
 	cli, srv := net.Pipe()
 	var pmu sync.Mutex
+	var stopReading int32
+	stopped := make(chan struct{})
 	clientLines := make(chan string, 1024)
 	readerDone := make(chan struct{})
 	go func() { // the peer's reader: always consuming, so client writes never block
 		defer close(readerDone)
 		rd := bufio.NewReader(srv)
 		for {
+			if atomic.LoadInt32(&stopReading) == 1 {
+				<-stopped // the peer has stopped reading: the client's next write blocks until the peer closes
+				pmu.Lock()
+				o.PeerEOF = true
+				pmu.Unlock()
+				return
+			}
 			l, err := rd.ReadString('\n')
 			if l != "" {
 				l = strings.TrimRight(l, "\r\n")
@@ -214,7 +237,8 @@ func (lc *lifeClient) runLifeConn(idx int, term, place, peer string, r *RNG) *li
 	}
 	ret := make(chan error, 1)
 	start := time.Now()
-	go func() { ret <- lc.c.MockConnect(cli) }()
+	wrapped := &closeRecorder{Conn: cli}
+	go func() { ret <- lc.c.MockConnect(wrapped) }()
 
 	tag := fmt.Sprintf("c%d", idx)
 	terminate := func() {
@@ -314,6 +338,14 @@ func (lc *lifeClient) runLifeConn(idx int, term, place, peer string, r *RNG) *li
 				}
 				terminate()
 			}
+		case "midwrite":
+			// the peer stops reading, lets the client run into a blocked write (net.Pipe is synchronous), then closes:
+			// the write FAILS before the teardown, which must close the socket all the same
+			atomic.StoreInt32(&stopReading, 1)
+			sendRec(":x!u@h PRIVMSG me :queue")
+			time.Sleep(30 * time.Millisecond)
+			srv.Close()
+			close(stopped)
 		case "queued":
 			sendRec(":x!u@h PRIVMSG me :queue")
 			if term == "close" || term == "quit" {
@@ -349,6 +381,7 @@ func (lc *lifeClient) runLifeConn(idx int, term, place, peer string, r *RNG) *li
 		}
 	}
 	o.ConnectedAfter = lc.c.IsConnected()
+	o.SockClosed = atomic.LoadInt32(&wrapped.closed) > 0
 	// the socket must be closed on return: the peer's reader sees EOF
 	select {
 	case <-readerDone:
@@ -461,7 +494,7 @@ func judgeLife(c *Ctx, hin map[string]string, o *lifeObs, prev *lifeObs) {
 	if o.ConnectedAfter {
 		viol("still_connected", "IsConnected() is true after Connect returned")
 	}
-	if !o.PeerEOF {
+	if !o.PeerEOF || !o.SockClosed {
 		viol("socket_open", "the socket was not closed when Connect returned")
 	}
 	if o.GAfter > o.GBefore {
@@ -655,6 +688,10 @@ func runC07(c *Ctx) {
 				n++
 			}
 		}
+	}
+	for _, t2 := range []string{"close", "eof"} {
+		c.run("life", map[string]string{"terms": "eof," + t2 + ",close", "places": "midwrite,burst,burst", "peers": "passive,passive,passive"})
+		n++
 	}
 	for i := 0; i < 6*(c.Scale-1); i++ {
 		var ts, ps, pes []string
